@@ -67,7 +67,8 @@ pub fn roots(tier: &str, seed: u64) -> Vec<Root> {
     let thorough = tier == "thorough";
     let mut v = vec![];
     let mut k = 0u64;
-    for prog in server::programs() {
+    let only = std::env::var("PV_ONLY_PROGRAM").ok();
+    for prog in server::programs().into_iter().chain(server::zero_bit_programs()).filter(|p| only.as_deref().map(|o| o == p.name).unwrap_or(true)) {
         let n = prog.parties;
         for leader in 0..n {
             let masks: Vec<Vec<bool>> = if n == 2 {
